@@ -724,7 +724,8 @@ Inductive uop :=
 (* what is visible on the wire (no ghost fields) *)
 Inductive wf :=
 | WMsg (to tag : N) (m : msg) | WReply (to tag : N) (d : list N)
-| WSpawn (pid : N) | WTerm (pid : N) | WJoin (g pid : N) | WLeave (g pid : N).
+| WSpawn (pid : N) | WTerm (pid : N) | WJoin (g pid : N) | WLeave (g pid : N)
+| WOther.                                (* never produced by the model (ping, ready, ...) *)
 
 Definition wire_of (f : frame) : wf :=
   match f with
@@ -738,7 +739,9 @@ Record uout := mkU {
   u_wire : list wf;                    (* frames written by the session *)
   u_dlv : list (N * msg);              (* messages handled by local actors *)
   u_res : list (N * list N);           (* reply ports resolved *)
-  u_px : list (N * bool * list N) }.   (* the proxies of interest: alive, groups *)
+  u_px : list (N * bool * list N);     (* the proxies of interest: alive, groups *)
+  u_adv : list N }.                    (* local actors the session will accept messages for
+                                          (advertised_local_pids): the live announced ones *)
 
 Definition uresp (pid : N) (m : msg) : option (list N) :=
   if N.even (m_v m) then Some (pid :: m_a m) else None.
@@ -771,7 +774,8 @@ Section Unit.
                  (map wire_of (ctl s2 ++ pool s2 ++ flat (fwd s2)))
                  (flat_map (fun y => map (pair y) (skipn (length (dlv st y)) (dlv s2 y))) ys)
                  (skipn (length (res st)) (res s2))
-                 (map (fun q => (q, x_alive (px s2 q), sortN (x_groups (px s2 q)))) xs) in
+                 (map (fun q => (q, x_alive (px s2 q), sortN (x_groups (px s2 q)))) xs)
+                 (filter (fun y => t_alive (tg s2 y)) ys) in
     (with_chains s2 [[]] [[]] [] [], out).
 
   Fixpoint urun (st : sys) (ops : list uop) : list uout :=
@@ -780,3 +784,13 @@ Section Unit.
     | o :: r => let '(s1, out) := ustep st o in out :: urun s1 r
     end.
 End Unit.
+
+(* the mirror clause at the level of one session (E3b): every local actor that was announced to
+   the peer (Spawn on the wire) and has exited must have been reported (Terminate on the wire) by
+   the time the session has processed its lifecycle events — otherwise the peer's remote
+   reference never stops *)
+Definition is_wspawn (i : N) (w : wf) : bool := match w with WSpawn p => N.eqb p i | _ => false end.
+Definition is_wterm (i : N) (w : wf) : bool := match w with WTerm p => N.eqb p i | _ => false end.
+Definition check_C20_sess (exited : list N) (outs : list uout) : bool :=
+  let w := flat_map u_wire outs in
+  forallb (fun i => implb (existsb (is_wspawn i) w) (existsb (is_wterm i) w)) exited.
